@@ -65,6 +65,10 @@ def rule_r1(rep, repo):
         d = e5.diff(A.ret, gb)
         if d is None:
             rep.ok("R1.inverse-formulas-agree", f"{bm}~InverseRTransform.{im}", fa.loc(), e5.show(A.ret, 120))
+        elif e5.algebraically_equal(A.ret, gb):
+            # differently factored but the same Laurent polynomial in (d1, d2, d3): same function
+            rep.ok("R1.inverse-formulas-agree", f"{bm}~InverseRTransform.{im}", fa.loc(),
+                   "equal after expansion to the normal form " + e5.show_poly(e5.laurent(A.ret), 120))
         else:
             rep.violation(
                 "R1.inverse-formulas-agree", f"rtransform.BaseTransform.{bm}", f"InverseRTransform.{im}",
@@ -72,6 +76,8 @@ def rule_r1(rep, repo):
                 f"BaseTransform.{bm} computes {e5.show(d[1], 90)} where InverseRTransform.{im} computes "
                 f"{e5.show(d[2], 90)}; both must equal the same inverse-function-theorem formula, so one is wrong",
                 fa.loc(), [f"first differing node at {d[0]}", f"A = {e5.show(A.ret, 200)}", f"B = {e5.show(gb, 200)}",
+                           f"normal form A: {e5.show_poly(e5.laurent(A.ret), 200)}",
+                           f"normal form B: {e5.show_poly(e5.laurent(gb), 200)}",
                            f"sibling at {fb.loc()}"])
 
 
